@@ -72,7 +72,7 @@ class C11(CheckBase):
                   'stub': ['sockets, aiohttp session (consumer sessions only)']}
     assumptions = ['concurrent table access goes through the locked entry points (the _no_lock ones are used by one task '
                    'at a time, as the MDIB does under mdib_lock)']
-    expected_probes = ['failed_add', 'failed_update', 'update_object', 'indexed_attr_changed', 'commits', 'consumer_sessions']
+    expected_probes = ['failed_add', 'failed_update', 'concurrent_lookups', 'update_object', 'indexed_attr_changed', 'commits', 'consumer_sessions']
 
     def budget(self, tier):
         return {'quick': {'runs': 1500, 'wall': 60}, 'thorough': {'runs': 60000, 'wall': 1200}}[tier]
@@ -92,11 +92,11 @@ class C11(CheckBase):
             names = [f'o{i}' for i in range(8)]
             for i in range(n):
                 k = rng.choice(['add', 'add', 'add', 'mutate', 'mutate', 'remove', 'remove', 'failed_add', 'clear',
-                                'add_index', 'remove_unknown', 'add_many'])
+                                'add_index', 'remove_unknown', 'add_many', 'lookup', 'lookup'])
                 op = {'id': i, 'k': k, 't': rng.randrange(tasks), 'o': rng.choice(names),
                       'uid': rng.randint(0, 9), 'grp': rng.choice(['a', 'b', None]),
                       'opt': rng.choice([None, None, 'x', 'y']),
-                      'tags': rng.choice([None, [], ['p'], ['p', 'q'], ['q', 'r', 's']]),
+                      'tags': rng.choice([None, [], ['p'], ['p', 'q'], ['q', 'r', 's'], ['p', 'p'], ['q', 'r', 'q']]),
                       'nolock': rng.random() < 0.3 and tasks == 1, 'attr': rng.choice(['uid', 'grp', 'opt', 'tags'])}
                 if k == 'clear' and rng.random() < 0.7:
                     op['k'] = 'add'
@@ -155,9 +155,32 @@ class C11(CheckBase):
             if names != sorted(live):
                 ctx.violation('C11.lookups', 'stored-objects', f'{where}: stored {names} but model has {sorted(live)}')
 
+        def run_lookup(op):
+            # a reader that uses the locked lookup entry points while other tasks modify the table: whatever the
+            # interleaving, a lookup returns objects (or None / []), it never raises for want of synchronisation
+            s.reseed('op', op['id'])
+            ctx.probe('concurrent_lookups')
+            try:
+                if 'uid' in t._idx_defs:
+                    got = t.uid.get_one(op['uid'], allow_none=True)
+                    if got is not None and got.uid != op['uid'] and got in t._objects and plan['tasks'] == 1:
+                        ctx.violation('C11.lookups', 'get_one-wrong-object', f'uid.get_one({op["uid"]}) -> {got}')
+                if 'grp' in t._idx_defs:
+                    for o in t.grp.get(op['grp'], []):
+                        _ = o.name
+                if 'tags' in t._idx_defs and op['tags']:
+                    t.tags.get(op['tags'][0], [])
+            except (IndexError, RuntimeError, AttributeError, TypeError) as ex:
+                import traceback
+                ctx.violation('C11.lookups', f'lookup-raised:{type(ex).__name__}',
+                              f'{op}: a lookup through the locked entry point raised while another task updated the table:\n'
+                              f'{traceback.format_exc()[-1200:]}')
+
         def run_op(op):
             k = op['k']
             nolock = op['nolock']
+            if k == 'lookup':
+                return run_lookup(op)
             with guard:
                 s.reseed('op', op['id'])
                 name = op['o']
@@ -213,6 +236,8 @@ class C11(CheckBase):
                     key = sorted(live)[op['id'] % len(live)]
                     obj = live.pop(key)
                     (t.remove_object_no_lock if nolock else t.remove_object)(obj)
+                elif k == 'lookup':
+                    pass  # (handled outside the guard, see below)
                 elif k == 'remove_unknown':
                     stranger = Obj('stranger', 99, 'a', None, None)
                     (t.remove_object_no_lock if nolock else t.remove_object)(stranger)
